@@ -237,6 +237,14 @@ def firstDuplicate (w : World) (snaps : List Nat) : Option String :=
     | s :: rest => if seen.contains (snapName w s) then some (snapName w s) else go (snapName w s :: seen) rest
   go [] snaps
 
+/-- fresh cells holding the contents of the given cells -/
+def copyCells (w : World) : List Ref → World × List Ref
+  | [] => (w, [])
+  | r :: rest =>
+    let (h, r') := w.heap.alloc (w.heap.get r)
+    let (w', rs) := copyCells { w with heap := h } rest
+    (w', r' :: rs)
+
 /-- `_decorate_namespace_function` / one accessor of `_decorate_namespace_property` for function `f` -/
 def decorateOne (w : World) (key : String) (f : FnId) (inherit : Bool)
     (base : Bool × List Nat × List Nat × List Nat) : Except DefErr World :=
@@ -250,7 +258,10 @@ def decorateOne (w : World) (key : String) (f : FnId) (inherit : Bool)
   else
     let (basesHaveFunc, bPre, bSnaps, bPosts) := base
     if bPre.isEmpty && basesHaveFunc && !ownPre.isEmpty then .error (.typeErrorWeaken key) else
-    let pre := bPre ++ ownPre
+    -- the groups collected from the bases are COPIED (`[list(group) for group in ...]`): the member never shares a
+    -- group list with a base, so a later in-place `@require` on it cannot reach the base
+    let (w, bCopies) := copyCells w bPre
+    let pre := bCopies ++ ownPre
     let snaps := bSnaps ++ ownSnaps
     match firstDuplicate w snaps with
     | some n => .error (.valueErrorDuplicateSnapshot n)
